@@ -1,9 +1,9 @@
 package rules
 
 import (
+	"go/ast"
 	"go/constant"
 	"go/token"
-	"go/ast"
 	"go/types"
 	"strings"
 
